@@ -1,4 +1,5 @@
 import GE.Model.TagSem
+import GE.Model.ItemPath
 import GE.Model.Expr
 import GE.Model.Rlm
 import GE.Model.TagScope
@@ -213,6 +214,30 @@ def jsonSem : Sem TE J Bool where
   reads := fun e f => match e with
     | .expr x => f ∈ GE.TagScope.dataFields x
     | .mix ps => ps.any fun p => match p with | .inl _ => false | .inr x => f ∈ GE.TagScope.dataFields x
+
+/-! ### l-value paths of `model:` bindings (instance of `PSem`) -/
+
+/-- the data path an expression reads: member / index chains over data fields and scope variables, the taken branch of a conditional -/
+def lpathE (D : J) (sc : List J) (sp : List (Option (List J))) : Expr → Option (List J)
+  | .data n => some [.str n]
+  | .scope i => sp.getD i none
+  | .smember o n => (lpathE D sc sp o).map (· ++ [.str n])
+  | .dmember o k => (lpathE D sc sp o).map (· ++ [evalE D sc k])
+  | .cond c t f => if (evalE D sc c).truthy then lpathE D sc sp t else lpathE D sc sp f
+  | _ => none
+
+def jsonPSem : PSem TE J Bool J where
+  sem := jsonSem
+  get := fun v k => J.member v k.key
+  keyOf := fun x => x
+  lpath := fun e D sc sp => match e with
+    | .expr x => lpathE D sc sp x
+    | .mix _ => none
+
+def printPaths (ps : List (Binding J J)) : String :=
+  " ".intercalate (ps.map fun p => match p.2.1 with
+    | some q => "[" ++ ",".intercalate (q.map J.toJson) ++ "]"
+    | none => "null")
 
 /-! ### printing a node tree (canonical text compared with the real runtime's dump) -/
 
